@@ -2,8 +2,13 @@ package harness
 
 import (
 	"bytes"
+	"log"
 	"math/rand"
+	"os"
+	"runtime/debug"
 	"strings"
+
+	"github.com/akrylysov/pogreb"
 )
 
 // RunResult is what one executed plan reports.
@@ -85,11 +90,48 @@ func (se seqEngine) Generate(rng *rand.Rand, prop string, thorough bool) *Plan {
 		p.Cfg = cfg
 	}
 	keys := GenKeys(rng, KeyFamily(cfg.Family), cfg.NKeys, cfg.HashSeed)
+	// 1 run in 5 (not C16, not C14): a big skewed key set - 60% of 100-240 keys agree in the low hash bits
+	// (one chain of 2-5 overflow buckets that stays together through every split of its bucket), the rest
+	// is spread, so the index keeps growing and splits that chain's bucket while deletes leave holes in it
+	big := prop != "C16" && !se.retainMode && rng.Intn(5) == 0
+	var pre []Op
+	id := 0
+	if big {
+		n := []int{100, 160, 240}[rng.Intn(3)]
+		keys = GenKeys(rng, KFLowBits, n*6/10, cfg.HashSeed)
+		seen := map[string]bool{}
+		for _, k := range keys {
+			seen[string(k)] = true
+		}
+		for c := 0; len(keys) < n; c++ {
+			k := []byte("r" + itoa(int(cfg.HashSeed%1000)) + "-" + itoa(c))
+			if !seen[string(k)] {
+				keys = append(keys, k)
+			}
+		}
+		cfg.MaxSeg = []uint32{4096, 8192, 65536}[rng.Intn(3)]
+		p.Cfg.MaxSeg = cfg.MaxSeg
+		g.Sizes = []int{0, 1, 7, 16, 16, 60}
+		g.MinOps, g.MaxOps = 60, 260
+		// load most keys in a seeded order, deleting now and then, so that holes exist when buckets split
+		for _, k := range rng.Perm(n) {
+			if rng.Intn(10) == 0 {
+				continue
+			}
+			id++
+			pre = append(pre, Op{K: "put", Key: k, ID: id, Size: g.Sizes[rng.Intn(len(g.Sizes))]})
+			if rng.Intn(6) == 0 {
+				pre = append(pre, Op{K: "del", Key: rng.Intn(n)})
+			}
+			if g.Sessions && rng.Intn(40) == 0 {
+				pre = append(pre, Op{K: "close"}, Op{K: "open"})
+			}
+		}
+	}
 	p.Cfg.NKeys = len(keys)
 	cfg.NKeys = len(keys)
 	p.SetKeys(keys)
-	id := 0
-	ops := GenSeqOps(rng, cfg, g, &id)
+	ops := append(pre, GenSeqOps(rng, cfg, g, &id)...)
 	if prop == "C16" {
 		// sprinkle limit probes
 		extra := []string{"put-longkey", "put-longkey-alias", "get-longkey", "has-longkey", "del-longkey", "put-bigvalue"}
@@ -103,9 +145,33 @@ func (se seqEngine) Generate(rng *rand.Rand, prop string, thorough bool) *Plan {
 			}
 		}
 	}
+	if prop == "C16" && os.Getenv("VERIF_BIG") != "" && (bigRuns == 0 || (thorough && bigRuns%40 == 0)) {
+		// a value of exactly the 512 MiB limit, then an unclean shutdown, recovery and a compaction
+		// (one worker only: about 3 GiB of memory for a few seconds)
+		for pos := len(ops); pos >= 0; pos-- {
+			if openAt(ops, pos) {
+				// under the longest key of the universe: the largest record there can be
+				longest := 0
+				for i, k := range keys {
+					if len(k) > len(keys[longest]) {
+						longest = i
+					}
+				}
+				ops = append(ops[:pos:pos], append([]Op{{K: "put-maxvalue", Key: longest}}, ops[pos:]...)...)
+				// half a gigabyte per copy: the cheapest legal disk personality for this one run
+				p.Cfg.Alias, p.Cfg.Poison, p.Cfg.ShortReads = true, false, false
+				break
+			}
+		}
+	}
+	if prop == "C16" {
+		bigRuns++
+	}
 	p.Tasks = [][]Op{ops}
 	return p
 }
+
+var bigRuns int
 
 func openAt(ops []Op, pos int) bool {
 	open := true
@@ -163,7 +229,7 @@ func (se seqEngine) Execute(p *Plan) *RunResult {
 			mutatedThisSession = true
 		}
 		var v *Violation
-		if strings.Contains(op.K, "-long") || op.K == "put-bigvalue" {
+		if strings.Contains(op.K, "-long") || op.K == "put-bigvalue" || op.K == "put-maxvalue" {
 			v = e.doLimit(op)
 		} else {
 			v = e.Do(op)
@@ -304,6 +370,8 @@ func (e *Env) doLimit(op Op) *Violation {
 		if err == nil {
 			return violf("limit-not-enforced", "Put with a %d-byte key returned nil", len(long))
 		}
+	case "put-maxvalue":
+		return e.doMaxValue(stored)
 	case "put-bigvalue":
 		if bigValue == nil {
 			bigValue = make([]byte, 512<<20+1)
@@ -349,4 +417,111 @@ func (e *Env) doLimit(op Op) *Violation {
 		return violf("limit-probe-changed-contents", "after %s Count() = %d, model has %d", op.K, e.DB.Count(), len(e.Model.M))
 	}
 	return nil
+}
+
+// doMaxValue: a value of exactly MaxValueLength round-trips, also across an unclean shutdown with
+// recovery, and the segment holding it can be compacted.
+func (e *Env) doMaxValue(key []byte) *Violation {
+	// half-gigabyte objects: collect eagerly while this runs
+	oldGC := debug.SetGCPercent(25)
+	defer func() {
+		debug.SetGCPercent(oldGC)
+		debug.FreeOSMemory()
+	}()
+	if bigValue == nil {
+		bigValue = make([]byte, 512<<20+1)
+	}
+	v := bigValue[:512<<20]
+	copy(v, "max-value-begin")
+	copy(v[len(v)-13:], "max-value-end")
+	defer func() {
+		for i := 0; i < 15; i++ {
+			v[i] = 0
+		}
+		for i := len(v) - 13; i < len(v); i++ {
+			v[i] = 0
+		}
+	}()
+	if err := e.DB.Put(key, v); err != nil {
+		return violf("max-value-rejected", "Put with a value of exactly 512 MiB: %v", err)
+	}
+	small := append([]byte(nil), "after-the-big-one"...)
+	other := e.Keys[(indexOfKey(e.Keys, key)+1)%len(e.Keys)]
+	if !bytes.Equal(other, key) {
+		if err := e.DB.Put(other, small); err != nil {
+			return violf("api-error", "Put after the 512 MiB value: %v", err)
+		}
+		e.Model.M[string(other)] = small
+	}
+	e.Model.M[string(key)] = v // shared, not copied
+	check := func(db *pogreb.DB, when string) *Violation {
+		got, err := db.Get(key)
+		if err != nil {
+			return violf("max-value-lost", "%s: Get of the 512 MiB value: %v", when, err)
+		}
+		if !bytes.Equal(got, v) {
+			return violf("max-value-lost", "%s: the 512 MiB value reads back as %d bytes %s", when, len(got), showVal(got))
+		}
+		if !bytes.Equal(other, key) {
+			if got, err := db.Get(other); err != nil || !bytes.Equal(got, small) {
+				return violf("max-value-lost", "%s: the key written after the 512 MiB value reads %s, %v", when, showVal(got), err)
+			}
+		}
+		return nil
+	}
+	if vv := check(e.DB, "right after the Put"); vv != nil {
+		return vv
+	}
+	debug.FreeOSMemory()
+	// unclean shutdown: the image as it is now (lock file present), recovered by a fresh Open
+	im := e.FS.Snapshot()
+	r := NewEnv(e.Cfg, e.Keys, im, false)
+	r.NoRetain = true
+	defer func() {
+		e.InstallSeedSource()
+		pogreb.SetLogger(log.New(e.LogBuf, "", 0))
+	}()
+	im = nil
+	debug.FreeOSMemory()
+	if err := r.Open(); err != nil {
+		return violf("open-failed-after-crash", "Open on the image holding a 512 MiB value: %v", err)
+	}
+	if !r.lastOpenRecovered {
+		return violf("harness", "the image of the unclean shutdown was opened without recovery")
+	}
+	if vv := check(r.DB, "after an unclean shutdown and recovery"); vv != nil {
+		return vv
+	}
+	if int(r.DB.Count()) != len(e.Model.M) {
+		return violf("max-value-lost", "after recovery Count() = %d, want %d", r.DB.Count(), len(e.Model.M))
+	}
+	// overwrite it (the segment becomes garbage) and compact
+	if err := r.DB.Put(key, small); err != nil {
+		return violf("api-error", "overwriting the 512 MiB value after recovery: %v", err)
+	}
+	if _, err := r.DB.Compact(); err != nil {
+		return violf("max-value-not-compactable", "Compact of the segment holding the 512 MiB value: %v", err)
+	}
+	if err := r.DB.Close(); err != nil {
+		return violf("api-error", "Close: %v", err)
+	}
+	e.Probes["max_value_roundtrip"]++
+	// and in the live database: delete it again so that the rest of the history stays cheap
+	if err := e.DB.Delete(key); err != nil {
+		return violf("api-error", "Delete of the 512 MiB value: %v", err)
+	}
+	delete(e.Model.M, string(key))
+	if _, err := e.DB.Compact(); err != nil {
+		return violf("max-value-not-compactable", "Compact of the segment holding the 512 MiB value: %v", err)
+	}
+	return nil
+}
+
+func indexOfKey(keys [][]byte, k []byte) int {
+	for i, x := range keys {
+		if bytes.Equal(x, k) {
+			return i
+		}
+	}
+	return 0
 }
